@@ -11,7 +11,7 @@
                     over m (ideal signatures: unforgeability, one meaning per byte string). *)
 From Coq Require Import List String Bool NArith ZArith.
 Import ListNotations.
-From VF Require Import common.Json gen.Gen_C07 C07.Model C07.Proofs C07.ProofsRT C07.StrictModel C07.ProofsStrict C07.ParseModel C07.ProofsParse.
+From VF Require Import common.Json gen.Gen_C07 C07.Model C07.Proofs C07.ProofsRT C07.StrictModel C07.ProofsStrict C07.ParseModel C07.ProofsParse C07.ProofsVP.
 Open Scope string_scope.
 Open Scope list_scope.
 
@@ -88,6 +88,22 @@ Theorem verify_sign :
       (add_proof d (signed_proof c t)) = Verified 1.
 Proof. exact verify_sign_pv. Qed.
 Print Assumptions verify_sign.
+
+(* the same for the detached-JWS representation: header and signature text are base64url (no '.'), the signature
+   segment is not empty; the appended proof carries `header..signature` and verifies, exactly one proof *)
+Theorem verify_sign_detached_jws :
+  forall canon compact_sec time_ok nonce_dec pv_dec seg_dec resolve accepts compact_proof d c t k m,
+    s_repr c = RJws -> s_nonce c = "" ->
+    no_dot (s_alg_header c) = true -> no_dot t = true -> nonempty t = true ->
+    lookup d "proof" = None ->
+    time_ok (s_created c) = true -> nonce_dec "" = Some "" ->
+    sign_message canon compact_sec compact_proof excluded_keys d c = Some m ->
+    seg_dec t = DSig (SBy k m) ->
+    key_of resolve (proof_of_ctx c) = Some k -> accepts (s_type c) = true ->
+    verify_object canon compact_sec time_ok nonce_dec pv_dec seg_dec resolve accepts compact_proof excluded_keys
+      (add_proof d (signed_proof c t)) = Verified 1.
+Proof. exact verify_sign_jws. Qed.
+Print Assumptions verify_sign_detached_jws.
 
 (* ---- documents and proof sets: an accepted document has a proof member, every entry of it decodes into a typed
         proof carrying the received members, and EVERY entry verifies (the count is the number of entries) ---- *)
@@ -181,6 +197,45 @@ Theorem strict_rejects :
     strict_ok SFixed o (compact o) = false.
 Proof. exact strict_rejects_doc. Qed.
 Print Assumptions strict_rejects.
+
+(* ---- COMPOSITION.  In strict mode an accepted document has NO member outside the signed content: strict validation
+        passing means no member is undefined for the context (contrapositive of strict_rejects), and the proof check
+        passing means the content - which the hypotheses of tamper_detected take to retain every defined member - is
+        that of the signed document, with the signed proof options. ---- *)
+Theorem strict_accepted_is_signed :
+  forall (dfn : string -> bool), dfn "id" = true ->
+  forall (compact : obj -> option json)
+         (canon : json -> option N) (compact_sec : json -> option json)
+         (pv_dec : string -> string -> dec) (seg_dec : string -> dec) (resolve : string -> string -> option N)
+         (accepts : string -> bool) (compact_proof : bool)
+         (C : Type) (content : json -> C),
+    (forall a b n, canon a = Some n -> canon b = Some n -> content a = content b) ->
+    (forall j j', compact_sec j = Some j' -> content j' = content j) ->
+    (forall o o', content (JObj o) = content (JObj o') -> forall k, In k protected -> lookup o k = lookup o' k) ->
+    forall (signed_by : N -> msg -> Prop),
+    (forall t ty k m, pv_dec t ty = DSig (SBy k m) -> signed_by k m) ->
+    (forall s k m, seg_dec s = DSig (SBy k m) -> signed_by k m) ->
+    forall d p k d0 c,
+    (forall j, compact d = Some j -> ids_ok (JObj d) = true /\ j = JObj (dropm dfn d)) ->
+    uniq (JObj d) = true ->
+    strict_ok SFixed d (compact d) = true ->
+    (forall m, signed_by k m -> Some m = sign_message canon compact_sec compact_proof excluded_keys d0 c) ->
+    key_of resolve p = Some k ->
+    verify_one canon compact_sec pv_dec seg_dec resolve accepts compact_proof excluded_keys d p = true ->
+    has_undef dfn (JObj d) = false /\
+    content (JObj (without_proof d)) = content (JObj (without_proof d0)) /\
+    same_protected p (proof_of_ctx c).
+Proof.
+  intros dfn Hid compact canon compact_sec pv_dec seg_dec resolve accepts compact_proof C content Hinj Hck Hco
+         signed_by Hpv Hseg d p k d0 c Hspec Hu Hstrict Honly Hk Hv.
+  split.
+  - destruct (has_undef dfn (JObj d)) eqn:E; [|reflexivity].
+    rewrite (strict_rejects dfn Hid compact d Hspec Hu E) in Hstrict. discriminate.
+  - destruct (tamper_detected canon compact_sec pv_dec seg_dec resolve accepts compact_proof C content Hinj Hck Hco
+                signed_by Hpv Hseg d p k d0 c Honly Hk Hv) as [(j & j0 & _ & _ & _ & E) [Hp _]].
+    split; assumption.
+Qed.
+Print Assumptions strict_accepted_is_signed.
 
 (* the compaction hypothesis is satisfiable: the executable instance *)
 Theorem strict_compaction_instance :
@@ -278,6 +333,23 @@ Proof.
   inversion E. reflexivity.
 Qed.
 Print Assumptions verified_document_exact_partial.
+
+(* ---- PRESENTATIONS AND THE CREDENTIALS THEY EMBED, as the code implements it.  The proof check looks at the TOP-LEVEL
+        proof member only: the outcome is the same for any two signature decoders that agree on the signature holders
+        of the top-level proof entries - whatever the proofs of embedded credential objects are (valid, invalid,
+        absent) has no influence.  So a verified presentation says: the embedded credentials, their own proofs
+        included, are (content-wise, tamper_detected) what the HOLDER signed; it says nothing about whether those
+        credentials' own proofs are valid - a caller has to verify them separately (sampled: presentations signed over
+        credentials with a broken issuer proof verify).  Credentials embedded as JWT strings are verified by
+        ParsePresentation (C08) but not covered by the presentation proof (known finding above). ---- *)
+Theorem presentation_proof_ignores_embedded_proofs :
+  forall canon compact_sec time_ok nonce_dec pv_dec pv_dec' seg_dec seg_dec' resolve accepts compact_proof excl d,
+    (forall pe ms m, lookup d "proof" = Some pe -> proof_entries pe = Some ms -> In m ms ->
+                     agree_on pv_dec pv_dec' seg_dec seg_dec' m) ->
+    verify_object canon compact_sec time_ok nonce_dec pv_dec seg_dec resolve accepts compact_proof excl d
+    = verify_object canon compact_sec time_ok nonce_dec pv_dec' seg_dec' resolve accepts compact_proof excl d.
+Proof. exact verify_object_ext. Qed.
+Print Assumptions presentation_proof_ignores_embedded_proofs.
 
 (* ---- JWT ENVELOPES AROUND A DOCUMENT WITH AN EMBEDDED PROOF (unsecured JWT, alg none: the embedded proof is the
         only protection).  The registered claims are applied to the claim object FIRST (iss -> holder / issuer id,
